@@ -279,14 +279,21 @@ def sensitivity(only=None, tier='quick', jobs=16, index='mutants/index.json', wi
                 print('MISSED  %-34s (expected %s)' % (os.path.basename(m['patch']), ','.join(props)))
         finally:
             shutil.rmtree(d, ignore_errors=True)
+            _dump_results(results)      # after every entry: a long run that is cut short keeps what it has
     print('sensitivity: %d missed' % missed)
+    _dump_results(results)
+    return 0 if missed == 0 else 1
+
+
+def _dump_results(results):
+    import json
     outp = os.environ.get('VERIF_SENS_OUT')
     if outp:
         prev = []
         if os.path.exists(outp):
             prev = [r for r in json.load(open(outp)) if r['patch'] not in {x['patch'] for x in results}]
-        json.dump(prev + results, open(outp, 'w'), indent=1)
-    return 0 if missed == 0 else 1
+        json.dump(prev + results, open(outp + '.tmp', 'w'), indent=1)
+        os.replace(outp + '.tmp', outp)
 
 
 def case_digests(pid, n, jobs, seed=1, tier='quick', stride=1):
